@@ -164,6 +164,17 @@ pub fn render(v: &Value) -> String {
     }
 }
 
+pub fn render_sv(v: &klukai_types::api::SqliteValue) -> String {
+    use klukai_types::api::SqliteValue as S;
+    match v {
+        S::Null => "NULL".into(),
+        S::Integer(i) => format!("{i}"),
+        S::Real(f) => format!("{:?}", f.0),
+        S::Text(t) => render(&Value::Text(t.to_string())),
+        S::Blob(b) => format!("x{}", hex(b)),
+    }
+}
+
 pub fn hex(b: &[u8]) -> String {
     b.iter().map(|x| format!("{x:02x}")).collect()
 }
